@@ -1333,3 +1333,53 @@ Qed.
 
 Lemma unique_keysb_spec ds : unique_keysb ds = true <-> unique_keys ds.
 Proof. unfold unique_keysb, unique_keys. now rewrite andb_true_iff, !nodupb_NoDup. Qed.
+
+(* ------------------------------------------------------------------------------------------ *)
+(* the ordering step leaves an already ordered list alone: Backend.convert's second resolution keeps
+   the order the collection got when it was loaded *)
+Lemma visits_all_marked rr M f : forall js st,
+  (forall j, In j js -> In j (fst st)) -> visits f rr M js st = st.
+Proof.
+  induction js as [|j t IH]; intros st H; [reflexivity|].
+  rewrite visits_cons.
+  assert (E : visit f rr M j st = st).
+  { destruct f as [|f]; [reflexivity|]. rewrite visit_S.
+    assert (Hm : memn j (fst st) = true) by (apply memn_In, H; now left).
+    now rewrite Hm. }
+  rewrite E. apply IH. intros x Hx. apply H. now right.
+Qed.
+
+Lemma topo_fixpoint rr M : NoDup M -> topo_ok rr M -> topo rr M = M.
+Proof.
+  intros Hnd Ht. unfold topo. fold (visits (S (length M)) rr M M ([], [])).
+  set (F := S (length M)).
+  assert (L : forall l2 l1, M = l1 ++ l2 -> visits F rr M l2 (rev l1, l1) = (rev M, M)).
+  { induction l2 as [|i t IH]; intros l1 E.
+    - rewrite app_nil_r in E. subst. reflexivity.
+    - rewrite visits_cons.
+      assert (Hi1 : ~ In i l1).
+      { rewrite E in Hnd. apply NoDup_remove_2 in Hnd. intros H. apply Hnd. apply in_or_app. now left. }
+      assert (HiM : In i M) by (rewrite E; apply in_or_app; right; now left).
+      assert (E1 : memn i (rev l1) = false) by (apply memn_false; now rewrite <- in_rev).
+      assert (E2 : memn i M = true) by now apply memn_In.
+      assert (Step : visit F rr M i (rev l1, l1) = (rev (l1 ++ [i]), l1 ++ [i])).
+      { unfold F. rewrite visit_S. cbn [fst snd]. rewrite E1, E2. cbn [orb negb].
+        rewrite visits_all_marked.
+        - cbn [fst snd]. rewrite rev_app_distr. reflexivity.
+        - cbn [fst]. intros j Hj. right. rewrite <- in_rev. eapply (Ht l1 i t); eauto. }
+      rewrite Step. apply IH. rewrite <- app_assoc. exact E. }
+  change (([] : list nat), ([] : list nat)) with (rev (@nil nat), @nil nat).
+  rewrite (L M []); reflexivity.
+Qed.
+
+Theorem order_conv_eq_load Q rplain rcorr ds c rr :
+  pipeline Q rplain rcorr ds = Ok c -> resolve_all ds = Some rr -> c_order_conv c = c_order_load c.
+Proof.
+  intros H Hr. pose proof (pipeline_Ok_acyclic Q rplain rcorr ds c rr H Hr) as Hac.
+  destruct (pipeline_Ok _ _ _ _ _ H) as [rr' [Hr' [E1 [E2 _]]]].
+  assert (rr' = rr) by congruence. subst rr'.
+  assert (El : load ds = Ok (rr, c_order_load c)) by (unfold load; rewrite Hr, E1; reflexivity).
+  destruct (load_topo _ _ _ El Hac) as [P1 [T1 _]].
+  rewrite E2. apply topo_fixpoint; [|exact T1].
+  eapply Permutation_NoDup; [symmetry; exact P1 | apply seq_NoDup].
+Qed.
